@@ -179,7 +179,7 @@ func closureC06(h *Hist, col *stats.Collector) {
 }
 
 func runC06(t *rapid.T, col *stats.Collector, lnd bool) {
-	h := newHist(t, HistCfg{MaxSteps: 30, Chains: []string{"btc", "lbtc"}, Restarts: true, Crashes: true, Faults: true, PayOutcomes: true, SlowPays: true, Timeouts: true, LNDStyle: lnd,
+	h := newHist(t, HistCfg{MaxSteps: 30, Chains: []string{"btc", "lbtc"}, Restarts: true, Crashes: true, Faults: true, PayOutcomes: true, SlowPays: true, Timeouts: true, RecoverFaults: true, LNDStyle: lnd,
 		Weights: map[string]int{"start": 0, "progress": 14, "deliver": 1, "settle": 1, "restart": 1, "mine": 2, "watcher": 1, "paid": 1, "timeout": 2, "payplan": 3, "resolve": 2, "fault": 2, "armcrash": 1}})
 	defer h.Close()
 	h.B.LNDStyle = lnd
